@@ -6,16 +6,13 @@ Property theorems only; helper lemmas are in `SSLemmas/Extract.lean`; the model 
 -/
 open SS.Extract
 
-/-- The queue entries the elaborate step moves back: `(None, *to_elaborate.pop())` for every pending node. -/
-def backOf (rest : List EE) : List QE := rest.map (fun e => ⟨none, e.node, e.depth⟩)
-
 /-- **keep**: a hook that returns `None` leaves the rest of the stack exactly as it was. -/
 theorem C10_keep (env : Env) (s : St) (f : FrameRec) (d : Nat) (rest : List EE)
     (h : s.toElab = ⟨.frameObj f, d⟩ :: rest)
     (hr : env.elabFn f.pyframe (nextView rest.head?) = .none) :
     ∃ s', elabStep env s = .inr s' ∧ s'.toElab = rest ∧ s'.toUnwrap = s.toUnwrap
       ∧ s'.out = s.out ++ [⟨f, env.elabHide f.pyframe⟩] := by
-  simp [elabStep, h, hr]
+  simp [elabStep, h, hr, elabOutcome]
 
 /-- **replace / PRUNE**: a result that does not end in `next_inner` (in particular the empty one) is
 queued at the frame's depth `d`, and of the old rest exactly the leading entries of depth ≥ `d` are
@@ -27,13 +24,12 @@ theorem C10_prune_local (env : Env) (s : St) (f : FrameRec) (d : Nat) (rest : Li
     ∃ s', elabStep env s = .inr s' ∧ s'.toElab = []
       ∧ s'.toUnwrap = (es.map (resolveElem (nextObj rest.head?))).map (fun o => ⟨betterOrigin env o none, o, d⟩)
                         ++ (backOf rest).dropWhile (fun q => q.depth ≥ d) := by
-  have hcond : ((es.map (resolveElem (nextObj rest.head?))) = [] ||
-      (es.map (resolveElem (nextObj rest.head?))).getLast? != some (nextObj rest.head?)) = true := by
+  have hcond : replacing (es.map (resolveElem (nextObj rest.head?))) (nextObj rest.head?) = true := by
+    unfold replacing
     rcases hrep with h0 | h1
     · simp [h0]
     · exact Bool.or_eq_true_iff.mpr (Or.inr (bne_iff_ne.mpr h1))
-  simp only [elabStep, h, hr]
-  simp only [hcond, if_true]
+  simp only [elabStep, h, hr, elabOutcome, requeue, hcond, if_true]
   exact ⟨_, rfl, rfl, rfl⟩
 
 /-- What `dropWhile (depth ≥ d)` removes is a prefix all of whose entries are at least as deep as the
@@ -72,7 +68,7 @@ theorem C10_elaborate_fail (env : Env) (s : St) (f : FrameRec) (d : Nat) (rest :
       ∧ s'.toUnwrap = (backOf rest).dropWhile (fun q => q.depth ≥ d)
       ∧ s'.out = s.out ++ [⟨f, false⟩]
       ∧ s'.errors = s.errors ++ (if env.withContexts then (env.ctxErrs f.pyframe).map .hook else []) ++ [.hook e] := by
-  simp [elabStep, h, hr, backOf]
+  simp [elabStep, h, hr, elabOutcome, requeue, replacing]
 
 /-- **insert**: a result ending in `next_inner` queues its other items before the rest, which is kept
 whole — `next_inner` included, at its own depth. -/
@@ -84,11 +80,10 @@ theorem C10_insert (env : Env) (s : St) (f : FrameRec) (d : Nat) (rest : List EE
     ∃ s', elabStep env s = .inr s' ∧ s'.toElab = []
       ∧ s'.toUnwrap = ((es.map (resolveElem (nextObj rest.head?))).dropLast).map (fun o => ⟨betterOrigin env o none, o, d⟩)
                         ++ backOf rest := by
-  have hcond : ((es.map (resolveElem (nextObj rest.head?))) = [] ||
-      (es.map (resolveElem (nextObj rest.head?))).getLast? != some (nextObj rest.head?)) = false := by
+  have hcond : replacing (es.map (resolveElem (nextObj rest.head?))) (nextObj rest.head?) = false := by
+    unfold replacing
     simp [hne, hins]
-  simp only [elabStep, h, hr]
-  simp only [hcond]
+  simp only [elabStep, h, hr, elabOutcome, requeue, hcond]
   exact ⟨_, rfl, rfl, rfl⟩
 
 /-- **unwrap to a fixpoint**: when the unwrap phase ends nothing is left to unwrap, no frame was
